@@ -396,9 +396,9 @@ Section Event.
       destruct (cx_nodes x id) as [nx pend] eqn:Enode.
       assert (Hnid : nodes s id = nx) by (rewrite Hn, Enode; reflexivity).
       rewrite <- Hm in Hev.
-      assert (Henv0 : lenv F boot (n_log (nodes s id))).
+      assert (Henv0 : lenv F boot (n_log (nodes s id)) (n_commit (nodes s id))).
       { rewrite Hnid. specialize (Henv id). rewrite Enode in Henv. exact Henv. }
-      assert (Henv1 : lenv F boot (n_log (fst (fst (exec_cc boot page1 id ev (nodes s id, pend)))))).
+      assert (Henv1 : lenv F boot (n_log (fst (fst (exec_cc boot page1 id ev (nodes s id, pend))))) (n_commit (fst (fst (exec_cc boot page1 id ev (nodes s id, pend)))))).
       { rewrite Hnid. specialize (Henv' id). cbn [cx_nodes] in Henv'. rewrite upd_same in Henv'. exact Henv'. }
       assert (Hpd0 : PD (nodes s id) pend) by (specialize (Hpd id); rewrite Enode in Hpd; rewrite Hnid; exact Hpd).
       assert (Hnok0 : nok (nodes s id)) by (specialize (Hnok id); rewrite Enode in Hnok; rewrite Hnid; exact Hnok).
